@@ -54,6 +54,11 @@ type Prop struct {
 	Timeout time.Duration
 	// Direct is an optional in-process sweep (needs no model); it appends to the report.
 	Direct func(g *G, r *Report)
+	// Canon optionally canonicalises the implementation's answer before any comparison
+	// (e.g. CRASH -> PANIC where the real code panics in a goroutine that cannot be recovered).
+	Canon func(impl string) string
+	// NTOf optionally decides non-triviality from the implementation's answer (overrides Case.NT).
+	NTOf func(c *Case, impl string) bool
 }
 
 var props = map[string]*Prop{}
@@ -145,6 +150,11 @@ func corrMain(args []string) {
 			}
 		}
 		impl := runAll(selfWorkerArgv(), reqs, ncpu, timeout)
+		if p.Canon != nil {
+			for i := range impl {
+				impl[i] = p.Canon(impl[i])
+			}
+		}
 		model := runAll([]string{*driver}, reqs, ncpu, 20*time.Second)
 		spec := map[int]string{}
 		if len(specReqs) > 0 {
@@ -163,6 +173,9 @@ func corrMain(args []string) {
 				outcome = outcome[:k]
 			}
 			rep.Distribution["outcome:"+outcome]++
+			if p.NTOf != nil {
+				c.NT = p.NTOf(c, impl[i])
+			}
 			if c.NT && !seen[c.Req] {
 				seen[c.Req] = true
 				rep.DistinctNT++
